@@ -190,4 +190,23 @@ mod tests {
 #[allow(unused_imports, missing_docs, dead_code, unreachable_pub)]
 pub mod verif {
     use super::*;
+
+    // C28/C27: the request/response helpers on plain functions
+    pub fn is_valid(req: &HeaderRequest) -> bool {
+        req.is_valid()
+    }
+
+    pub fn is_head_request(req: &HeaderRequest) -> bool {
+        req.is_head_request()
+    }
+
+    pub fn to_validated_extended_header(
+        resp: &HeaderResponse,
+    ) -> Result<ExtendedHeader, HeaderExError> {
+        resp.to_validated_extented_header()
+    }
+
+    pub fn to_header_response(header: &ExtendedHeader) -> HeaderResponse {
+        header.to_header_response()
+    }
 }
